@@ -91,6 +91,18 @@ def alphabet_for(spec, tier):
                                                                             "for-me-idlookup", "multicast", "to-default")) else (True,)
         for env in envs:
             ops.append(("inject", name, t, env))
+    # two frames pending for one update(): a frame that is forwarded followed by one that is not (and vice versa)
+    pairs = [("forward-up", "for-me"), ("forward-up", "multicast"), ("forward-up", "invalid-to"), ("for-me", "forward-up"), ("forward-up", "forward-up")]
+    if child is not None:
+        pairs += [("forward-child", "for-me"), ("forward-child", "short")]
+    for n1, n2 in pairs:
+        for t in (1, 65):
+            for env in (True, False):
+                ops.append(("inject2", n1, n2, t, env))
+    # (Not in the alphabet: the radio put to sleep / taken out of RX mode by the application through the shared RF24 API
+    # (`power = False`, `listen = False`).  The property quantifies over sequences of network / mesh API calls; after such a
+    # radio-level call update() on the unchanged tree returns with the radio still asleep, by design of the sleepy-node
+    # pattern.  The op kind "radio-attr" is kept in do_op for experiments only.)
     # --- transmitting API
     if cls in ("net",):
         dests = [("parent", parent), ("child", child), ("remote", remote), ("self", addr), ("desc", desc)]
@@ -152,10 +164,7 @@ def do_op(state, op, seed=0):
     parent, child, desc, remote = relatives(addr)
     w.phantom_ack = None
     res = None
-    if kind == "inject":
-        _, name, t, env = op
-        w.phantom_ack = _ack_all if env else None
-        fid = 77
+    def payload(name, t, fid):
         msg = H.pattern(5, seed, salt=t)
         to_pipe0 = False
         if name in ("for-me", "for-me-nack", "for-me-ping"):
@@ -192,8 +201,26 @@ def do_op(state, op, seed=0):
             pl = b"\\x01\\x02\\x03"
         else:
             raise HarnessError(name)
+        return pl, to_pipe0
+
+    if kind == "inject":
+        _, name, t, env = op
+        w.phantom_ack = _ack_all if env else None
+        pl, to_pipe0 = payload(name, t, 77)
         H.inject(w, ghost, lvl_addr if to_pipe0 else my_pipe1, pl, noack=to_pipe0)
         res = node.update()
+    elif kind == "inject2":
+        # two payloads are waiting in the RX FIFO when update() runs
+        _, name1, name2, t, env = op
+        w.phantom_ack = _ack_all if env else None
+        for j, name in enumerate((name1, name2)):
+            pl, to_pipe0 = payload(name, t, 77 + j)
+            H.inject(w, ghost, lvl_addr if to_pipe0 else my_pipe1, pl, noack=to_pipe0)
+        res = node.update()
+    elif kind == "radio-attr":
+        # the documented sleepy-node pattern / a user leaving RX mode through the radio API the node exposes
+        setattr(node, op[1], op[2])
+        res = None
     elif kind == "send":
         _, d, t, mlen, env, nack = op
         w.phantom_ack = _ack_all if env else None
@@ -310,6 +337,8 @@ def canon(state):
 
 def check_state(state, op, hist, exc, rep, init_name, pid=PID):
     w, node, radio, ghost = state[:4]
+    if op[0] == "radio-attr":
+        return []  # not a network call: nothing is claimed right after it
     bad = N.listening_violations(node, radio)
     if bad:
         env = "ack" if (len(op) > 3 and op[-1] is True) or (len(op) > 4 and op[4] is True) else "noack"
